@@ -255,12 +255,17 @@ STR_ORIGINS = {"field alias", "Config.aliases value", "TypedDict key", "discrimi
 _TY = {"str": "TStr", "bytes": "TBytes", "int": "TInt", "bool": "TBool", "NoneType": "TNone", "tuple": "TTuple"}
 
 
-def _ty_names(node) -> list:
+_SUB = {"TStr": "TStrSub", "TBytes": "TBytesSub", "TInt": "TIntSub"}   # bool / NoneType cannot be subclassed
+
+
+def _ty_names(node, exact: bool) -> list:
+    """exact: `type(X) in (...)` - exactly these types; otherwise isinstance(): subclasses too"""
     elts = node.elts if isinstance(node, (ast.Tuple, ast.List, ast.Set)) else [node]
     out = []
     for e in elts:
         nm = e.id if isinstance(e, ast.Name) else (e.attr if isinstance(e, ast.Attribute) else None)
-        out.append(_TY.get(nm, "TFloat?" if nm == "float" else "TAny"))
+        t = _TY.get(nm, "TFloat?" if nm == "float" else "TAny")
+        out.append(t if exact else _SUB.get(t, t))
     return out
 
 
@@ -272,10 +277,10 @@ def type_guard_of(test) -> dict:
     notnan, notinf = set(), set()
     for c in conj:
         if isinstance(c, ast.Call) and isinstance(c.func, ast.Name) and c.func.id == "isinstance" and len(c.args) == 2:
-            out[ast.unparse(c.args[0])] = _ty_names(c.args[1])
+            out[ast.unparse(c.args[0])] = _ty_names(c.args[1], exact=False)
         if isinstance(c, ast.Compare) and len(c.ops) == 1 and isinstance(c.ops[0], ast.In) and isinstance(c.left, ast.Call) \
                 and isinstance(c.left.func, ast.Name) and c.left.func.id == "type" and len(c.left.args) == 1:
-            out[ast.unparse(c.left.args[0])] = _ty_names(c.comparators[0])
+            out[ast.unparse(c.left.args[0])] = _ty_names(c.comparators[0], exact=True)
         if isinstance(c, ast.UnaryOp) and isinstance(c.op, ast.Not) and isinstance(c.operand, ast.Call) and len(c.operand.args) == 1:
             fn = getattr(c.operand.func, "attr", None) or getattr(c.operand.func, "id", None)
             if fn == "isnan":
@@ -616,6 +621,14 @@ class Scanner:
                 return code("repr of library text")
             s = self.site(n, ast.unparse(n), "KRepr" if f.id == "repr" else "KAscii", a.note or a.o)
             return AV(QUOTED, lead=[s], trail=[s], note="repr()")
+        if isinstance(f, ast.Name) and f.id == "literal_repr" and len(args) == 1 and literal_repr_ok():
+            # base.__repr__(value): the repr of the builtin base type, whatever the subclass overrides
+            a = flat(args[0])
+            if a.o == CODE:
+                return code("repr of library text")
+            s = self.site(n, "repr(" + ast.unparse(n.args[0]) + ")", "KRepr", a.note or a.o)
+            s.types = [{"TStrSub": "TStr", "TBytesSub": "TBytes", "TIntSub": "TInt"}.get(t, t) for t in s.types]
+            return AV(QUOTED, lead=[s], trail=[s], note="literal_repr()")
         if isinstance(f, ast.Name) and f.id == "map" and len(n.args) == 2:
             fn = n.args[0]
             it = self.iter_item(args[1])
@@ -1014,6 +1027,28 @@ _TUPLE_BODY = ast.dump(ast.parse(
         "return f\"({', '.join(items)})\"\n").body, type_ignores=[]))
 _IMPORT_BODY = ast.dump(ast.Module(body=ast.parse(
     "name = f\"v_{uuid.uuid4().hex}\"\nself.ensure_object_imported(value, name)\nreturn name\n").body, type_ignores=[]))
+
+
+_LITERAL_REPR = ast.dump(ast.parse(
+    "def literal_repr(value):\n    for base in (bool, int, str, bytes):\n        if isinstance(value, base):\n"
+    "            return base.__repr__(value)\n    return repr(value)\n").body[0].body and ast.Module(body=ast.parse(
+        "for base in (bool, int, str, bytes):\n    if isinstance(value, base):\n        return base.__repr__(value)\nreturn repr(value)\n").body,
+        type_ignores=[]))
+
+
+def literal_repr_ok() -> bool:
+    """helpers.literal_repr exists and its body is the expected one (docstring/annotations ignored)"""
+    try:
+        t = ast.parse(open(os.path.join(REPO, "mashumaro/core/meta/helpers.py")).read())
+    except OSError:
+        return False
+    for n in t.body:
+        if isinstance(n, ast.FunctionDef) and n.name == "literal_repr" and [a.arg for a in n.args.args] == ["value"]:
+            body = n.body
+            if body and isinstance(body[0], ast.Expr) and isinstance(body[0].value, ast.Constant):
+                body = body[1:]
+            return ast.dump(ast.Module(body=body, type_ignores=[])) == _LITERAL_REPR
+    return False
 
 
 def default_literal_branches() -> list:
